@@ -297,10 +297,13 @@ def type_token(x: Any) -> str:
 # ---------------------------------------------------------------------------------------------------------------
 # gateways
 
-def make_gateway(types: List[str], placement: str, variant: str) -> dict:
-    """device tree (dicts) offering `types`; cids are assigned in document order"""
+def make_gateway(types: List[str], placement: str, variant: str, omit: Optional[Dict[str, List[str]]] = None) -> dict:
+    """device tree (dicts) offering `types`; cids are assigned in document order.  `omit` (service type -> actions)
+    removes actions from that service's SCPD: real gateways ship SCPDs that leave actions out."""
     cid = itertools.count(1)
-    mk = lambda ty: {"ty": ty, "cid": next(cid), "acts": std_actions(ty, variant)}  # noqa: E731
+    omit = omit or {}
+    mk = lambda ty: {"ty": ty, "cid": next(cid),  # noqa: E731
+                     "acts": [a for a in std_actions(ty, variant) if a not in omit.get(ty, ())]}
     conn = [t for t in types if t in (T_IP1, T_IP2, T_PPP)]
     cic = [t for t in types if t == T_CIC]
     l3f = [t for t in types if t == T_L3F]
@@ -374,9 +377,11 @@ def facade_methods() -> List[str]:
 
 def run_routing(ctx: Ctx, recipe: Dict[str, Any], cid: str) -> Case:
     from harness.common import exc_token
-    root = make_gateway(recipe["types"], recipe["placement"], recipe["variant"])
+    root = make_gateway(recipe["types"], recipe["placement"], recipe["variant"], recipe.get("omit"))
     lines = gateway_lines(root)
     tags = {f"place:{recipe['placement']}", f"variant:{recipe['variant']}", f"nsvc:{len(recipe['types'])}"}
+    if recipe.get("omit"):
+        tags.add("scpd:omits-actions")
     req, prof, res = run(build_profile(root))
     lines.append(f"profile {res}")
     nontrivial = False
@@ -487,7 +492,7 @@ def run_series(ctx: Ctx, recipe: Dict[str, Any], cid: str) -> Case:
     import datetime as _dt
 
     from async_upnp_client.profiles import igd
-    root = make_gateway(recipe["types"], recipe["placement"], recipe["variant"])
+    root = make_gateway(recipe["types"], recipe["placement"], recipe["variant"], recipe.get("omit"))
     lines = gateway_lines(root)
     tags = {f"series:len{len(recipe['ops'])}", f"series:cfg{len(recipe['types'])}"}
     real_dt = igd.datetime
@@ -624,6 +629,13 @@ SERIES_CFGS = [
 ]
 
 CORPUS = [
+    # the first offered service of the alias list lacks the action, the next alias's service defines it (and vice versa)
+    {"kind": "routing", "types": [T_IP1, T_PPP], "placement": "standard", "variant": "std",
+     "omit": {T_IP1: ["GetNATRSIPStatus", "GetGenericPortMappingEntry"]},
+     "ops": ["async_get_nat_rsip_status", "async_get_generic_port_mapping_entry", "async_get_external_ip_address"]},
+    {"kind": "routing", "types": [T_IP2, T_PPP], "placement": "root", "variant": "std",
+     "omit": {T_PPP: ["GetNATRSIPStatus"], T_IP2: ["GetStatusInfo"]},
+     "ops": ["async_get_nat_rsip_status", "async_get_status_info"]},
     # F20b: both versions of WANIPConnection offered, an optional action implemented by one of them only
     {"kind": "routing", "types": [T_IP1, T_IP2], "placement": "standard", "variant": "opt-v1",
      "ops": ["async_request_termination", "async_get_port_mapping_number_of_entries", "async_get_external_ip_address"]},
@@ -674,6 +686,29 @@ def generate(ctx: Ctx) -> List[Case]:
                     jobs.append(({"kind": "routing", "types": list(subset), "placement": placement, "variant": variant,
                                   "ops": "ALL", "explicit": explicit}, f"g{i}"))
                     i += 1
+    # SCPDs that omit actions.  Exhaustive-small: for every facade action of a family, every way two offered
+    # services of the family (or the single common-interface / forwarding service) define it or not
+    conn_acts = [a for a in CONN_STD if a != "GetAutoDisconnectTime"]
+    for pair in ([T_IP1, T_PPP], [T_IP2, T_PPP], [T_IP1, T_IP2]):
+        for act in conn_acts:
+            for lack in ([pair[0]], [pair[1]], pair):
+                for placement in (("standard", "root") if ctx.thorough else ("standard",)):
+                    jobs.append(({"kind": "routing", "types": pair + [T_CIC], "placement": placement, "variant": "std",
+                                  "omit": {t: [act] for t in lack}, "ops": "ALL"}, f"o{i}"))
+                    i += 1
+    for act in [a for a in CIC_STD if a != "GetActiveConnection"] + L3F_STD:
+        ty = T_CIC if act in CIC_STD else T_L3F
+        for placement in ("standard", "wan"):
+            jobs.append(({"kind": "routing", "types": [T_IP1, T_CIC, T_L3F], "placement": placement, "variant": "std",
+                          "omit": {ty: [act]}, "ops": "ALL"}, f"o{i}"))
+            i += 1
+    # random: every service keeps an arbitrary subset of its standard actions
+    for _ in range(3000 if ctx.thorough else 150):
+        types = [t for t in FIVE if ctx.rng.randrange(4)]
+        omit = {t: [a for a in std_actions(t, "vendor") if ctx.rng.randrange(3) == 0] for t in types}
+        jobs.append(({"kind": "routing", "types": types, "placement": ctx.rng.choice(["root", "standard", "wan", "nested"]),
+                      "variant": "vendor", "omit": omit, "ops": "ALL"}, f"o{i}"))
+        i += 1
     # exhaustive: every series of length <= k over the six reading kinds on one counter (others steady)
     kinds = ["inc", "eq", "wrap", "neg", "fault", "transport"]
     depth = 4 if ctx.thorough else 3
@@ -683,7 +718,7 @@ def generate(ctx: Ctx) -> List[Case]:
                 jobs.append(({"kind": "series", "types": [T_IP1, T_CIC], "placement": "standard", "variant": "std", "t0": 0,
                               "ops": exh_series(counter, seq)}, f"x{i}"))
                 i += 1
-    n_series = 50000 if ctx.thorough else 2000
+    n_series = 50000 if ctx.thorough else 1500
     for _ in range(n_series):
         types, placement, variant = ctx.rng.choice(SERIES_CFGS)
         n = ctx.rng.randrange(1, 7)
